@@ -399,6 +399,21 @@ pub fn seconds() -> Vec<R> {
     v
 }
 
+/// [keep-alive request, X, probe]: what request X leaves behind (keep-alive flag, buffers, CORS state)
+/// must not leak into how the connection goes on: after a malformed or `close` X the probe is never answered
+pub fn stale_state_triples() -> Vec<Vec<R>> {
+    let probe = good("GET", "/r", "HTTP/1.1", Some("keep-alive"), None);
+    let mut mids = seconds();
+    mids.extend(malformed());
+    let mut v = vec![];
+    for a in [good("GET", "/r", "HTTP/1.1", Some("keep-alive"), None), good("POST", "/e", "HTTP/1.1", Some("keep-alive"), Some(b"hello")), good("OPTIONS", "/c", "HTTP/1.1", Some("keep-alive"), None)] {
+        for x in &mids {
+            v.push(vec![a.clone(), x.clone(), probe.clone()]);
+        }
+    }
+    v
+}
+
 pub fn plans_for(seq: &[R], pairs: bool, full_single_cuts: bool, timeouts: bool) -> Vec<Plan> {
     let mut total = 0;
     let mut bounds = vec![];
